@@ -1351,7 +1351,8 @@ static int32_t write_literal(void *context, const char *text, int length, int wr
  */
 static int32_t write_uliteral(void *context, const UChar *text, int length, int wrap) {
     if (length < 0) {
-        length = u_countChar32(text, -1);
+        /* the length is used as a count of UChar units (precision of the %S conversion below) */
+        length = u_strlen(text);
     }
 
     if (length == 0) {
